@@ -57,7 +57,7 @@ func drawC09(t *rapid.T) *c09Scenario {
 			s.VolumeOf = append(s.VolumeOf, i)
 		}
 	}
-	kinds := []string{"node", "node", "node", "node", "claim", "claim", "claim", "evict", "evict", "evict", "kubelet", "kubelet", "detach", "clock", "clock", "restart", "notready", "ready", "delete", "progress", "progress", "progress", "progress"}
+	kinds := []string{"node", "node", "node", "node", "claim", "claim", "claim", "evict", "evict", "evict", "kubelet", "kubelet", "detach", "clock", "clock", "restart", "notready", "ready", "delete", "progress", "progress", "progress", "progress", "land"}
 	minOps := rapid.IntRange(6, 30).Draw(t, "minOps")
 	s.Ops = rapid.SliceOfN(rapid.Custom(func(t *rapid.T) c09Op {
 		return c09Op{Kind: rapid.SampledFrom(kinds).Draw(t, "kind"), Arg: rapid.IntRange(0, 7).Draw(t, "arg")}
@@ -358,6 +358,16 @@ func runC09(s *c09Scenario, faultIdx, faultKind int) *c09Run {
 			doOp(c09Op{Kind: "clock", Arg: 0})
 			doOp(c09Op{Kind: "clock", Arg: 0})
 			doOp(c09Op{Kind: "claim"})
+		case "land":
+			// a pod is bound to the node although it is being drained (explicit spec.nodeName, or a scheduler that has not
+			// seen the taint yet)
+			if n := getNode(); n != nil && len(pods) < 7 {
+				spec := c10Pod{Grace: -1}
+				obj := sc.podObject(100+len(pods), spec, fmt.Sprintf("late-%d", len(pods)), w.Clock.Now())
+				w.Apply(obj)
+				pods = append(pods, &podTruth{spec: spec, name: obj.Name, uid: obj.UID})
+				r.drainable = true
+			}
 		case "delete":
 			startDelete()
 		case "node":
